@@ -45,8 +45,14 @@ func ZZApply(n0, keepOld, n1, n2, failMode int) {
 		cur.Namespaces["old"] = ns
 	}
 	cfg := &model.ClusterConfig{Servers: servers}
-	if n0 > 0 && keepOld == 1 {
-		cfg.Namespaces = append(cfg.Namespaces, model.NamespaceConfig{Name: "old", InitialShardCount: uint32(n0), ReplicationFactor: 1})
+	if n0 > 0 && keepOld >= 1 {
+		cnt := n0
+		if keepOld == 2 {
+			// the operator has edited initialShardCount of an EXISTING namespace: it is not re-sharded, its shards
+			// stay exactly as they are (and certainly no second set of shards is laid over the first)
+			cnt = n0 + 1
+		}
+		cfg.Namespaces = append(cfg.Namespaces, model.NamespaceConfig{Name: "old", InitialShardCount: uint32(cnt), ReplicationFactor: 1})
 	}
 	if n1 > 0 {
 		cfg.Namespaces = append(cfg.Namespaces, model.NamespaceConfig{Name: "n1", InitialShardCount: uint32(n1), ReplicationFactor: 1})
@@ -105,7 +111,7 @@ func ZZApply(n0, keepOld, n1, n2, failMode int) {
 		st := ns.Namespaces["old"]
 		vAssert("old-kept-in-status", len(st.Shards) == n0)
 		for id, s := range st.Shards {
-			if keepOld == 1 {
+			if keepOld >= 1 {
 				vAssert("kept-untouched", s.Status == model.ShardStatusSteadyState)
 			} else {
 				vAssert("dropped-marked-deleting", s.Status == model.ShardStatusDeleting)
